@@ -16,8 +16,9 @@ static_tie(ctx, rd, groups=GROUPS):
                    generated function); value_isothermal = get_target_elastic_modulus()
        adiabatic   gen_value_adiabatic = the memoised value_isothermal, for every state of the instance
 
-     stages: ShearTieBase -> {Gen_shear, ShearTieLemmas} -> the group files in parallel -> Tie_shear_target.v (imports
-     energy, keys, fict, frame) with the index of all proved groups under one Print Assumptions
+     stages: ShearTieBase -> Gen_shear (ShearTieLemmas next to them) -> the group files in parallel -> Tie_shear_target.v
+     (imports energy, keys, fict) with the index of all proved groups under one Print Assumptions; Tie_shear_frame.v
+     (non-vacuity, nothing imports it) runs next to all of them
   3. one obligation per requested group (+ translator accepted, Gen_shear.v compiles, index).  Never calls ctx.failure.
 Returns {group: reason} for the requested groups that are not proved.
 """
@@ -87,7 +88,10 @@ def static_tie(ctx, rd, groups=GROUPS):
     # ---- 1. translate ------------------------------------------------------------------------------------------
     try:
         r = TS.translate_repo(vlib.REPO)
-    except (TS.TranslateError, SyntaxError, OSError) as ex:
+    except Exception as ex:       # TranslateError / SyntaxError / OSError, and any defect of the translator: fail closed
+        if not isinstance(ex, (TS.TranslateError, SyntaxError, OSError)):
+            import traceback
+            ex = "translator crashed (treated as not accepted): %s" % traceback.format_exc()[-900:]
         ctx.obligation(tag + "translator accepts %s" % TS.SRC, "translator", False, str(ex))
         for g in want:
             failed[g] = "translator: %s" % ex
@@ -98,6 +102,12 @@ def static_tie(ctx, rd, groups=GROUPS):
     rel = [g for g in need if g in r["group_errors"]]
     ctx.obligation(tag + "translator accepts %s (%s)" % (TS.SRC, ", ".join(want)), "translator", not rel,
                    "\n".join("[%s] %s" % (g, m) for g in rel for m in r["group_errors"][g]))
+
+    bad = ["%s: %s" % (name, m.group(0)) for name, txt in
+           [(f.name, f.read_text()) for f in sorted(TEMPLATES.glob("*.v"))] + [("Gen_shear.v", r["gen"])]
+           for m in vlib.FORBIDDEN.finditer(vlib.strip_comments(txt))]
+    ctx.obligation(tag + "grep-gate: no Admitted/Axiom/Parameter/unset checks in tools/tie_shear/*.v and Gen_shear.v", "gate",
+                   not bad, "; ".join(bad))
 
     # ---- 2. vocabulary, regenerated definitions, general lemmas --------------------------------------------------
     why_all = None
@@ -112,16 +122,18 @@ def static_tie(ctx, rd, groups=GROUPS):
     for f in ("ShearTieBase.v", "ShearTieLemmas.v"):
         write(rd / f, (TEMPLATES / f).read_text())
     ok_gen, out_gen = False, ""
-    if why_all is None:
-        ok, out = vlib.coqc(rd / "ShearTieBase.v", extra_Q=XQ, timeout=120)
-        if not ok:
-            why_all = "ShearTieBase.v does not compile: " + out[-300:]
-    if why_all is None:
-        pre = [rd / "Gen_shear.v"] + ([rd / "ShearTieLemmas.v"] if any(g not in NO_REALS for g in need) else [])
-        res = vlib.coqc_many(pre, extra_Q=XQ, timeout=180)
-        ok_gen, out_gen = res[rd / "Gen_shear.v"]
-        if len(pre) > 1 and not res[pre[1]][0]:
-            why_all = "ShearTieLemmas.v does not compile: " + res[pre[1]][1][-300:]
+    # ShearTieLemmas.v does not depend on the generated files: it compiles next to ShearTieBase.v -> Gen_shear.v
+    from concurrent.futures import ThreadPoolExecutor
+    with ThreadPoolExecutor(max_workers=1) as ex:
+        lem = ex.submit(vlib.coqc, rd / "ShearTieLemmas.v", XQ, 180) if any(g not in NO_REALS for g in need) else None
+        if why_all is None:
+            ok, out = vlib.coqc(rd / "ShearTieBase.v", extra_Q=XQ, timeout=120)
+            if not ok:
+                why_all = "ShearTieBase.v does not compile: " + out[-300:]
+        if why_all is None:
+            ok_gen, out_gen = vlib.coqc(rd / "Gen_shear.v", extra_Q=XQ, timeout=180)
+        if lem is not None and not lem.result()[0] and why_all is None:
+            why_all = "ShearTieLemmas.v does not compile: " + lem.result()[1][-300:]
     ctx.obligation(tag + "Gen_shear.v (regenerated definitions, %d) compiles" % len(r["defined"]), "translator",
                    ok_gen and why_all is None, why_all or out_gen)
 
@@ -140,13 +152,18 @@ def static_tie(ctx, rd, groups=GROUPS):
         # without a final target stage every group file prints its own assumptions (they compile in parallel)
         pa = "" if target_planned else "\nPrint Assumptions tie_group_%s.\n" % g
         stage2[g] = write(rd / FILE_OF[g], (TEMPLATES / FILE_OF[g]).read_text() + pa)
-    extra2 = []
-    if "target" in need and "target" not in why:
-        extra2.append(write(rd / "Tie_shear_frame.v", (TEMPLATES / "Tie_shear_frame.v").read_text()))
-    res2 = vlib.coqc_many(list(stage2.values()) + extra2, extra_Q=XQ, timeout=300) if (stage2 or extra2) else {}
+    # Tie_shear_frame.v (non-vacuity of the solver hypotheses, independent of the generated files) belongs to the target
+    # group but nothing imports it: it compiles next to the other files and is only awaited at the end
+    from concurrent.futures import ThreadPoolExecutor
+    pool = ThreadPoolExecutor(max_workers=16)
+    frame = None
+    if target_planned:
+        frame = pool.submit(vlib.coqc, write(rd / "Tie_shear_frame.v", (TEMPLATES / "Tie_shear_frame.v").read_text() +
+                                             "\nPrint Assumptions tie_group_frame.\n"), XQ, 300)
+    futs = {g: pool.submit(vlib.coqc, f, XQ, 300) for g, f in stage2.items()}
     outs = {}
     for g, f in stage2.items():
-        ok, out = res2[f]
+        ok, out = futs[g].result()
         outs[g] = out
         if not ok:
             lem = lemma_at(f, out)
@@ -160,8 +177,6 @@ def static_tie(ctx, rd, groups=GROUPS):
         bad = [d for d in TARGET_DEPS if d in why]
         if bad:
             why["target"] = "depends on group(s) %s which failed" % ", ".join(bad)
-        elif extra2 and not res2[extra2[0]][0]:
-            why["target"] = "Tie_shear_frame.v does not compile: " + res2[extra2[0]][1][-300:]
         else:
             final = "target"
     idx_groups = list(proved) + ([final] if final else [])
@@ -188,6 +203,12 @@ def static_tie(ctx, rd, groups=GROUPS):
         body = "Definition tie_shear_all :=\n  (%s).\nPrint Assumptions tie_shear_all.\n" % ", ".join("tie_group_" + g for g in proved)
         ok, out_final = vlib.coqc(write(rd / "Tie_shear_index.v", hdr + body), extra_Q=XQ, timeout=300)
         ctx.obligation(tag + "Tie_shear_index.v (index of the proved groups, axioms)", "static-tie", ok, "" if ok else out_final)
+    if frame is not None:
+        okf, outf = frame.result()
+        out_final += "\n" + outf
+        if not okf and "target" not in why:
+            why["target"] = "Tie_shear_frame.v (non-vacuity of the solver hypotheses) does not compile: " + " ".join(outf.split())[-400:]
+    pool.shutdown()
     for closed, names in vlib.parse_assumptions(out_final):
         for n in names:
             ctx.axioms[n] = ctx.axioms.get(n, 0) + 1
